@@ -385,6 +385,17 @@ func (e *Exec) refTok(s string) string {
 	return "?" + s
 }
 
+// wholeTok names the digest of a whole file (it may coincide with the ref of a single chunk).
+func (e *Exec) wholeTok(s string) string {
+	if s == "" {
+		return "-"
+	}
+	if cid, ok := e.W.wholes[s]; ok {
+		return "w" + strconv.Itoa(cid)
+	}
+	return e.refTok(s)
+}
+
 func (e *Exec) keyIDTok(s string) string {
 	if k, ok := e.W.KeyIDOf[s]; ok {
 		return "K" + strconv.Itoa(k)
@@ -564,12 +575,12 @@ func (e *Exec) CanonRow(k, v string) string {
 		if !nk(2) {
 			return bad
 		}
-		return "wholetofile|" + e.refTok(kp[1]) + "," + e.refTok(kp[2]) + "=" + v
+		return "wholetofile|" + e.wholeTok(kp[1]) + "," + e.refTok(kp[2]) + "=" + v
 	case "fileinfo":
 		if !nk(1) || !nv(4) {
 			return bad
 		}
-		return "fileinfo|" + e.refTok(kp[1]) + "=" + vp[0] + "," + nameTok(urld(vp[1])) + "," + hexTok(urld(vp[2])) + "," + e.refTok(vp[3])
+		return "fileinfo|" + e.refTok(kp[1]) + "=" + vp[0] + "," + nameTok(urld(vp[1])) + "," + hexTok(urld(vp[2])) + "," + e.wholeTok(vp[3])
 	case "filetimes":
 		if !nk(1) {
 			return bad
